@@ -222,3 +222,227 @@ func onlyCalls(cs []ssa.CallInstruction) []*ssa.Call {
 	}
 	return out
 }
+
+// ---------------------------------------------------------------------------------------------
+// Interprocedural lifting of control-flow queries, so that rules are insensitive to helper extraction.
+// ---------------------------------------------------------------------------------------------
+
+// singleRepoCallee returns the unique repo function a plain call invokes (static, or a dynamic/interface call the call
+// graph resolves to exactly one repo function), or nil.
+func singleRepoCallee(c *Ctx, ins ssa.Instruction) *ssa.Function {
+	call, ok := ins.(*ssa.Call)
+	if !ok {
+		return nil
+	}
+	cs := c.P.Callees(call)
+	if len(cs) != 1 || !c.P.InRepo(cs[0]) || len(cs[0].Blocks) == 0 {
+		return nil
+	}
+	return cs[0]
+}
+
+// liftMust lifts an instruction matcher q through helper calls: a call to a repo helper matches when every path through the
+// helper executes a (lifted) match before any (lifted) stop instruction and before returning.
+func liftMust(c *Ctx, q, stop func(ssa.Instruction) bool) func(ssa.Instruction) bool {
+	memo := map[*ssa.Function]int{} // 0 unknown, 1 yes, 2 no, 3 in progress
+	var lifted func(ssa.Instruction) bool
+	var lstop func(ssa.Instruction) bool
+	lstop = func(ins ssa.Instruction) bool {
+		if stop == nil {
+			return false
+		}
+		if stop(ins) {
+			return true
+		}
+		return false
+	}
+	lifted = func(ins ssa.Instruction) bool {
+		if q(ins) {
+			return true
+		}
+		h := singleRepoCallee(c, ins)
+		if h == nil {
+			return false
+		}
+		switch memo[h] {
+		case 1:
+			return true
+		case 2, 3:
+			return false
+		}
+		memo[h] = 3
+		ok, _ := eng.MustPass(eng.Point{B: h.Blocks[0]}, lifted)
+		if ok && stop != nil {
+			ok, _ = eng.MustPassBefore(eng.Point{B: h.Blocks[0]}, lifted, lstop)
+		}
+		if ok {
+			memo[h] = 1
+		} else {
+			memo[h] = 2
+		}
+		return ok
+	}
+	return lifted
+}
+
+// liftMay lifts q through helper calls for reachability: a call to a repo helper matches when the helper may execute a match.
+func liftMay(c *Ctx, q func(ssa.Instruction) bool) func(ssa.Instruction) bool {
+	memo := map[*ssa.Function]int{}
+	return func(ins ssa.Instruction) bool {
+		if q(ins) {
+			return true
+		}
+		cl, ok := ins.(*ssa.Call)
+		if !ok {
+			return false
+		}
+		for _, h := range repoCallees(c, cl) {
+			if reaches(c, h, q, memo) {
+				return true
+			}
+		}
+		return false
+	}
+}
+
+// lastResultNilIndex: index of the last result if it is error-like (error or a pointer to a type implementing error), else -1.
+func errLikeResultIndex(sig *types.Signature) int {
+	n := sig.Results().Len()
+	if n == 0 {
+		return -1
+	}
+	t := sig.Results().At(n - 1).Type()
+	if types.Identical(t, types.Universe.Lookup("error").Type()) {
+		return n - 1
+	}
+	if _, isPtr := t.(*types.Pointer); isPtr && hasMethodNamed(t, "Error") {
+		return n - 1
+	}
+	return -1
+}
+
+func hasMethodNamed(t types.Type, name string) bool {
+	ms := types.NewMethodSet(t)
+	for i := 0; i < ms.Len(); i++ {
+		if ms.At(i).Obj().Name() == name {
+			return true
+		}
+	}
+	return false
+}
+
+// deepGuard computes, in fn, the edges on which a guard is known to have succeeded: success edges of direct guard calls
+// (isGuard gives the index of the error-like result), plus success edges of calls to repo helpers all of whose success
+// returns are cut, inside the helper, by its own (deep) guard edges.
+type deepGuard struct {
+	c       *Ctx
+	isGuard func(call *ssa.Call) (errIdx int, ok bool)
+	memo    map[*ssa.Function]int
+}
+
+func newDeepGuard(c *Ctx, isGuard func(call *ssa.Call) (int, bool)) *deepGuard {
+	return &deepGuard{c: c, isGuard: isGuard, memo: map[*ssa.Function]int{}}
+}
+
+// establishes: every success return of helper h lies behind the guard.
+func (g *deepGuard) establishes(h *ssa.Function) bool {
+	switch g.memo[h] {
+	case 1:
+		return true
+	case 2, 3:
+		return false
+	}
+	g.memo[h] = 3
+	ei := errLikeResultIndex(h.Signature)
+	ok := ei >= 0
+	if ok {
+		edges := g.edges(h)
+		if len(edges) == 0 {
+			ok = false
+		}
+		n := 0
+		for _, r := range eng.Returns(h) {
+			if r.Block().Comment == "recover" {
+				continue
+			}
+			kind := returnKind(g.c.P, r)
+			if kind == "failure" {
+				continue
+			}
+			n++
+			if !eng.Cut(h, r.Block(), edges) {
+				ok = false
+			}
+		}
+		if n == 0 {
+			ok = false
+		}
+	}
+	if ok {
+		g.memo[h] = 1
+	} else {
+		g.memo[h] = 2
+	}
+	return ok
+}
+
+func (g *deepGuard) edges(fn *ssa.Function) eng.EdgeSet {
+	out := eng.EdgeSet{}
+	for _, cl := range eng.Calls(fn) {
+		call, ok := cl.(*ssa.Call)
+		if !ok {
+			continue
+		}
+		if ei, ok := g.isGuard(call); ok {
+			s, _ := g.c.P.SuccessEdges(fn, []ssa.CallInstruction{call}, ei)
+			out = eng.Union(out, s)
+			continue
+		}
+		if h := singleRepoCallee(g.c, call); h != nil && h != fn {
+			if ei := errLikeResultIndex(h.Signature); ei >= 0 && g.establishes(h) {
+				s, _ := g.c.P.SuccessEdges(fn, []ssa.CallInstruction{call}, ei)
+				out = eng.Union(out, s)
+			}
+		}
+	}
+	return out
+}
+
+// regionFns: fn and the repo functions of the same package it calls synchronously (transitively, bounded), excluding `exclude`.
+func regionFns(c *Ctx, root *ssa.Function, exclude map[*ssa.Function]bool, depth int) []*ssa.Function {
+	seen := map[*ssa.Function]bool{root: true}
+	out := []*ssa.Function{root}
+	var walk func(f *ssa.Function, d int)
+	walk = func(f *ssa.Function, d int) {
+		if d >= depth {
+			return
+		}
+		for _, cl := range eng.Calls(f) {
+			if _, isGo := cl.(*ssa.Go); isGo {
+				continue
+			}
+			for _, h := range repoCallees(c, cl) {
+				if seen[h] || exclude[h] || eng.PkgPathOf(h) != eng.PkgPathOf(root) || c.P.IsTestSupport(h) {
+					continue
+				}
+				seen[h] = true
+				out = append(out, h)
+				walk(h, d+1)
+			}
+		}
+		for _, a := range f.AnonFuncs {
+			if !seen[a] {
+				// closures invoked in place
+				for _, cl := range eng.Calls(f) {
+					if mc, ok := cl.Common().Value.(*ssa.MakeClosure); ok && mc.Fn == ssa.Value(a) {
+						seen[a] = true
+						out = append(out, a)
+						walk(a, d+1)
+					}
+				}
+			}
+		}
+	}
+	walk(root, 0)
+	return out
+}
